@@ -594,20 +594,6 @@ def scope_printed(root, texts):
     return '[%s]' % '; '.join(lits), problems
 
 
-def scope_features(n, acc):
-    e = eff_props(n)
-    if e['list_item'] and e['inc'] is not None and not any(a == 'list-item' for a, _ in e['inc']):
-        acc.add('li-explicit-increment')
-    for pr in [e] + [pseudo_props(n[k]) for k in ('before', 'after') if n[k] is not None]:
-        incs = pr['inc'] if pr['inc'] is not None else ([['list-item', 1]] if pr.get('list_item') else [])
-        if any(a == b for a, _ in pr['set'] for b, _ in incs) or \
-                (pr.get('list_item') and any(a == 'list-item' for a, _ in pr['set'])
-                 and not any(b == 'list-item' for b, _ in (pr['inc'] or []))):
-            acc.add('set-and-increment-same-counter')
-    for k in n['kids']:
-        scope_features(k, acc)
-
-
 def scope_stream(run, rng, thorough):
     import time
     n = 1500 if thorough else 220
@@ -643,18 +629,11 @@ def scope_stream(run, rng, thorough):
     seen = {}
     for (d, c), m in zip(kept, masks):
         if m & 2:
-            feats = set()
-            scope_features(d, feats)
-            if 'set-and-increment-same-counter' in feats:
-                sig = 'c15:counter-set-before-increment'
-            elif 'li-explicit-increment' in feats:
-                sig = 'c15:explicit-increment-suppresses-list-item'
-            else:
-                sig = None
+            # bit 2 clear: granting the open list-item finding (model/C15Scope.v strip) explains the whole output
+            sig = None if m & 4 else 'c15:explicit-increment-suppresses-list-item'
             if sig not in seen:
                 seen[sig] = (d, c)
-    what = {'c15:counter-set-before-increment': 'counter-set is applied before counter-increment (CSS Lists 3: increment, then set)',
-            'c15:explicit-increment-suppresses-list-item': 'an explicit counter-increment on a list item suppresses the implicit list-item increment',
+    what = {'c15:explicit-increment-suppresses-list-item': 'an explicit counter-increment on a list item suppresses the implicit list-item increment',
             None: 'counters printed differ from the CSS scoping rules'}
     for sig, (d, c) in seen.items():
         run.fail(what[sig], {'stream': 'scope-renders', 'html': c['html'], 'doc': d}, signature=sig)
